@@ -276,6 +276,34 @@ def run(ctx, rep):
     from props import _viewread
     _viewread.run(F, rep, "C12.view-read")
     operands_are_dependencies(F, rep)
+    present_optional_compares_with_plain(F, rep)
+
+
+def present_optional_compares_with_plain(F, rep, rule="C12.eq-plain"):
+    """`A present optional compares equal to the plain value it holds`: the comparison has to be expressible.  For every kind K whose values can
+    be compared (`K == K` is accepted by get_output_type), `K? == K` and `K == K?` are accepted too, with the result bool (the run-time side,
+    Primitive::equals on the plain representations, is C02.op-table).  Read from the type checker's operator table by abstract evaluation."""
+    from props import _optables
+    from props.C02 import COMPOUND, kname
+    from tables import NATIVE
+    O = _optables.get(F)
+    T = O.T
+    n = 0
+    for K in list(NATIVE) + list(COMPOUND):
+        for op in ("Eq", "Neq"):
+            base = {k for (tag, k, dd) in T.static(op, K, K) if tag == "Some"}
+            if base != {"Bool"}:
+                continue
+            for l, r in ((("Opt", K), K), (K, ("Opt", K))):
+                st = T.static(op, l, r)
+                n += 1
+                somes = {k for (tag, k, dd) in st if tag == "Some"}
+                und = [x for x in st if x[0] in ("Undecided", "Panic")]
+                v = "ok" if somes == {"Bool"} and not und else ("undecided" if und else "violated")
+                rep.ob(rule, "%s(%s, %s) is accepted where %s(%s, %s) is" % (op, kname(l), kname(r), op, kname(K), kname(K)), v,
+                       "" if v == "ok" else "static result %s: a present `%s?` cannot be compared with the `%s` it holds" % (sorted(map(str, st))[:3], kname(K).lower(), kname(K).lower()),
+                       None, fn="compiler::ast::type::TypeLayout::get_output_type", key="%s|%s|%s,%s" % (rule, op, kname(l), kname(r)))
+    rep.floor(rule + " cells", n, 20)
 
 
 def operands_are_dependencies(F, rep, rule="C12.visit"):
